@@ -82,7 +82,7 @@ func (n *node[T]) buildMethods() {
 	for method := range n.handlers {
 		index += methodIndexMap[method]
 	}
-	if n.root.hasTrace {
+	if n.root.hasTrace && index > 0 { // 没有任何请求方法的节点并不是路由项，不能因为 TRACE 而被 Routes 列出。
 		index += methodIndexMap[http.MethodTrace]
 	}
 	n.setMethodIndex(index)
